@@ -266,6 +266,7 @@ pub fn err_kind(e: &Error) -> &'static str {
 }
 
 pub struct Store {
+    pub threads: crate::conc::Threads,
     pub root: PathBuf,
     pub dir: PathBuf,
     pub cfg: serde_json::Value,
@@ -351,7 +352,9 @@ fn data_ids(dir: &Path) -> Vec<(u64, char, u64)> {
 impl Store {
     pub fn new(root: PathBuf) -> Self {
         let io = IoTrace::load();
+        crate::conc::install(io.as_ref());
         Store {
+            threads: Default::default(),
             dir: root.join("store"),
             root,
             cfg: cfg_json(&[]).unwrap(),
@@ -658,6 +661,32 @@ impl Store {
                 };
                 let t = self.take_trace();
                 Some(format!("{}{}", r, t))
+            }
+            ["t.park", t, point, nth] => {
+                self.threads.park(t, point, nth.parse().ok()?);
+                Some("ok".into())
+            }
+            ["t.spawn", t, op @ ..] => {
+                let h = self.handle.as_ref()?.clone();
+                self.threads.spawn(t, h, op.iter().map(|s| s.to_string()).collect());
+                Some("ok".into())
+            }
+            ["t.wait", t, ms] => Some(self.threads.wait(t, ms.parse().ok()?)),
+            ["t.release", t] => Some(self.threads.release(t)),
+            ["t.join", t, ms] => Some(self.threads.join(t, ms.parse().ok()?)),
+            ["t.reset"] => {
+                self.threads.reset();
+                Some("ok".into())
+            }
+            ["idle"] => Some(format!("idle {}", self.handle.as_ref()?.verif_dump().idle_readers)),
+            ["stress", rest @ ..] => {
+                let mut kv = std::collections::HashMap::new();
+                for t in rest {
+                    let (k, v) = t.split_once('=')?;
+                    kv.insert(k.to_string(), v.parse::<u64>().ok()?);
+                }
+                let h = self.handle.as_ref()?.clone();
+                Some(crate::conc::stress(&h, &kv, 10000))
             }
             ["hazard"] => Some("hazard n/a".into()),
             ["dump"] => Some(Self::dump_string(self.handle.as_ref()?)),
